@@ -26,7 +26,7 @@ RULE = ('readspec: all sequences of length 1..L (L=3 quick, 4 thorough) over all
         '6/6/8 pixels), tree b (3 plates, 5/9/7 pixels, different COEFF0/COEFF1), tree c (one file) and tree f (4 plates: equal COEFF0/COEFF1 with 5/8 and 8/6 pixels, equal 8 pixels with different COEFF0) in the vector convention; all sequences up to '
         'length 2 (3 thorough) in every other calling convention that can express them (lists, int64, scalar plate, scalar fibre, all scalar, numpy '
         'scalars, MJD omitted, fibre omitted) and location convention (path=, path+run kwargs, env tree, env+kwargs, topdir kwarg with a decoy env tree, '
-        'numeric RUN2D, photoPlate in SPECTRO_MATCH, optional env unset) on trees a, b, c, f, e (five-digit plate) and dz/dp (optional files missing for one plate). '
+        'numeric RUN2D, photoPlate in SPECTRO_MATCH, optional env unset) on trees a, b, c, f, e (five-digit plate), g (plates >= 32768, one aliasing plate 4055 modulo 65536; also in the vector sweep) and dz/dp (optional files missing for one plate). '
         'Non-trivial = more than one distinct file requested, or request order differs from the file-grouped order, or a repeated triple. '
         'spec_append: all shapes (1..2 x 1..4)^2 x pixshift -3..3 x 3 dtypes; non-trivial = shapes differ or shift != 0. '
         'Helpers spec_path/latest_mjd/number_of_fibers: all plate vectors up to length 3 x 3 argument forms x 4 location conventions. '
@@ -58,6 +58,10 @@ TREES = {
     # 502/503 share COEFF0/COEFF1 but not NAXIS1 (later one shorter); all adjacent in sorted (plate, MJD) order
     'f': {'tid': 2, 'files': [(500, 52000, 2, 5, 3.5800, 1.0e-4), (501, 52001, 2, 8, 3.5800, 1.0e-4), (502, 52002, 2, 8, 3.5900, 1.0e-4),
                               (503, 52003, 2, 6, 3.5900, 1.0e-4)], 'photo': 'none', 'z': 'all'},
+    # plate numbers >= 32768 (a 32-bit (plate << 16) + mjd key wraps): 69591 = 4055 + 65536 has the same low 16 bits as 4055 and
+    # the same MJD, so a wrapped key aliases the two plates; 40021 wraps to a negative key
+    'g': {'tid': 1, 'files': [(4055, 58100, 2, 5, 3.5529, 1.0e-4), (69591, 58100, 2, 6, 3.5600, 1.0e-4), (40021, 58000, 2, 5, 3.5700, 1.0e-4)],
+          'photo': 'none', 'z': 'all'},
     # partial trees: one plate lacks the optional files
     'dz': {'tid': 2, 'files': [(3586, 55181, 2, 5, 3.5529, 1.0e-4), (4055, 55359, 2, 5, 3.5530, 1.0e-4)], 'photo': 'none', 'z': [0]},
     'dp': {'tid': 3, 'files': [(3586, 55181, 2, 5, 3.5529, 1.0e-4), (4055, 55359, 2, 5, 3.5530, 1.0e-4)], 'photo': [1], 'z': 'all'},
@@ -518,7 +522,7 @@ def check_sa(case):
 LOCS_FOR = {'a': ['path', 'pathkw', 'env', 'envkw', 'topdir', 'sdss1', 'match'],
             'b': ['path', 'env', 'topdir', 'noenv'],
             'c': ['path', 'env', 'match'],
-            'dz': ['path'], 'dp': ['path'], 'e': ['path', 'env'], 'f': ['path', 'env']}
+            'dz': ['path'], 'dp': ['path'], 'e': ['path', 'env'], 'f': ['path', 'env'], 'g': ['path', 'env']}
 
 
 def tasks(tier):
@@ -542,11 +546,12 @@ def tasks(tier):
     split('b', 'path', ['vec'], L, 2 if T else 1)
     split('c', 'path', ['vec'], L, 1 if T else 0)
     split('f', 'path', ['vec'], L, 2 if T else 1)
+    split('g', 'path', ['vec'], L, 1)
     # other conventions and locations: all sequences up to length 2 (3 thorough)
     ml = 3 if T else 2
     # trees 'dz'/'dp' (spZbest / photoPlate present for only some of the requested plates) are not run: the property says
     # nothing about partly missing optional files; readspec raises IndexError there (never mis-assigns) - see findings/C16.md
-    for tree in ('a', 'b', 'c', 'e', 'f'):
+    for tree in ('a', 'b', 'c', 'e', 'f', 'g'):
         for loc in LOCS_FOR[tree]:
             convs = other if loc == 'path' else ['vec', 'splate', 'nomjd', 'scalar', 'allfibers']
             split(tree, loc, convs, ml, 1 if (T and tree in ('a', 'b')) else 0)
